@@ -34,7 +34,7 @@ def isSpace (b : UInt8) : Bool := b == 32 || b == 9 || b == 10 || b == 11 || b =
 /-- strings.TrimSpace on ASCII white space -/
 def trimSpace (s : Bytes) : Bytes := ((s.dropWhile isSpace).reverse.dropWhile isSpace).reverse
 
-def digitsVal (ds : Bytes) : Nat := ds.foldl (fun acc d => acc * 10 + (d.toNat - 48)) 0
+def remDigitsVal (ds : Bytes) : Nat := ds.foldl (fun acc d => acc * 10 + (d.toNat - 48)) 0
 
 /-- `fmt.Sscanf(s, "%d", &v)`: optional sign, then at least one decimal digit; anything else leaves 0 -/
 def scanInt (s : Bytes) : Int :=
@@ -43,7 +43,7 @@ def scanInt (s : Bytes) : Int :=
     | 43 :: r => (false, r)
     | r => (false, r)
   let ds := rest.takeWhile fun b => 48 ≤ b && b ≤ 57
-  if ds.isEmpty ∨ ds.length > 18 then 0 else if neg then -(digitsVal ds : Int) else (digitsVal ds : Int)
+  if ds.isEmpty ∨ ds.length > 18 then 0 else if neg then -(remDigitsVal ds : Int) else (remDigitsVal ds : Int)
 
 /-- remote.go:Version -/
 def rcVersion (fs : RemoteReader) : Bytes :=
